@@ -295,6 +295,22 @@ func (p *Program) ground(check string) *GroundResult {
 				}
 			}
 		}
+	case "noRefPrefix":
+		res.Statement = "no listed id starts with LicenseRef- or DocumentRef- (the canonical string of a license term can never be mistaken for a reference)"
+		res.Rows = len(all)
+		for _, id := range all {
+			if strings.HasPrefix(id, "LicenseRef-") || strings.HasPrefix(id, "DocumentRef-") {
+				fail(id)
+			}
+		}
+	case "noEmptyId":
+		res.Statement = "no listed id is the empty string"
+		res.Rows = len(all)
+		for _, id := range all {
+			if id == "" {
+				fail("empty id")
+			}
+		}
 	case "noSuffixCollision":
 		res.Statement = "no listed id is itself '-only' or '-or-later' (an empty base id never reaches the lookup as a listed id)"
 		res.Rows = len(all)
